@@ -48,7 +48,8 @@ def _run_one(args):
         with contextlib.redirect_stdout(buf):
             ctx = Ctx(prop, "quick", d, 0, write=False)
             ctx.run_rules(mod.RULES)
-        fired = sorted({v["rule"] for v in ctx.violations})
+        known = {k.get("key") for k in ctx.known}
+        fired = sorted({v["rule"] for v in ctx.violations if v.get("key") not in known})
         hit = any(r.startswith(expect) for r in fired)
         return {"mutant": name, "status": "detected" if hit else ("other-rule" if fired else "MISSED"), "fired": fired,
                 "expected": expect, "analysis_errors": ctx.analysis_errors[:2]}
